@@ -754,6 +754,64 @@ fn main() {
         })();
         status.push(("HighwayHasher::default".into(), match r { Ok(()) => "translated".into(), Err(e) => format!("skipped: {e}") }));
     }
+    // std adapters (src/macros.rs): the machine models exactly four one-line forwards; an additional overridden provided
+    // method (write_vectored, write_all, write_u64, ..) or a different body is outside the modelled shape
+    for (mac, tr, want) in [
+        ("impl_write", "Write", &[("write", "{crate::HighwayHash::append(self,bytes);Ok(bytes.len())}"), ("flush", "{Ok(())}")][..]),
+        ("impl_hasher", "Hasher", &[("write", "{crate::HighwayHash::append(self,bytes);}"), ("finish", "{crate::HighwayHash::finalize64(self.clone())}")][..]),
+    ] {
+        let r: R<()> = (|| {
+            let msrc = std::fs::read_to_string(format!("{src}/macros.rs")).map_err(|e| format!("macros.rs: {e}"))?;
+            let mfile = syn::parse_file(&msrc).map_err(|e| format!("macros.rs: {e}"))?;
+            let mut body = None;
+            for it in &mfile.items {
+                if let Item::Macro(m) = it {
+                    if m.ident.as_ref().map(|i| i == mac).unwrap_or(false) {
+                        // `( $hasher_struct : ty ) => { .. }`: the last brace group is the expansion
+                        let mut last = None;
+                        let mut n_rules = 0;
+                        for t in m.mac.tokens.clone() {
+                            if let proc_macro2::TokenTree::Group(g) = &t {
+                                if g.delimiter() == proc_macro2::Delimiter::Brace {
+                                    last = Some(g.stream().to_string());
+                                    n_rules += 1;
+                                }
+                            }
+                        }
+                        if n_rules != 1 {
+                            return Err("macro has more than one rule".into());
+                        }
+                        body = last;
+                    }
+                }
+            }
+            let body = body.ok_or("macro not found")?.replace("$ hasher_struct", "HasherStruct").replace("$hasher_struct", "HasherStruct").replace("$ crate", "crate").replace("$crate", "crate");
+            let f: syn::File = syn::parse_str(&body).map_err(|e| format!("expansion does not parse: {e}"))?;
+            let mut seen = 0;
+            for it in &f.items {
+                let Item::Impl(im) = it else { return Err("expansion contains a non-impl item".into()) };
+                let trn = im.trait_.as_ref().and_then(|t| t.1.segments.last().map(|s| s.ident.to_string())).unwrap_or_default();
+                if trn != tr {
+                    return Err(format!("expansion implements {trn}"));
+                }
+                for ii in &im.items {
+                    let ImplItem::Fn(fun) = ii else { continue };
+                    let name = fun.sig.ident.to_string();
+                    let b = { let b = &fun.block; quote::quote!(#b).to_string().replace(' ', "") };
+                    match want.iter().find(|w| w.0 == name) {
+                        Some((_, w)) if *w == b => seen += 1,
+                        Some(_) => return Err(format!("{tr}::{name} has a different body")),
+                        None => return Err(format!("{tr}::{name} is overridden (the machine models the provided method)")),
+                    }
+                }
+            }
+            if seen != want.len() {
+                return Err("a required method is missing".into());
+            }
+            Ok(())
+        })();
+        status.push((format!("{mac}!"), match r { Ok(()) => "translated".into(), Err(e) => format!("skipped: {e}") }));
+    }
     // HashPacket
     out.push_str("namespace Packet\n\n");
     thms.push_str("namespace Packet\n\n");
